@@ -149,7 +149,7 @@ def param_taints(p, fmt=None, forced_default=False):
       U3 `dictionary of` - class / pydantic (the probe of the guessed type raises on the second round);
       U4 a default fragment on a parameter whose declared type is not int / float / str (Literal, bool, List ...);
       U5 a default fragment whose value is glued to the odd ending `!` or `...)` (the other eight endings are stable);
-      U6 a slash inside the third word; U7 a parenthesised fragment `(defaults to X)` (any position).
+      U6 a slash inside the second word; U7 a parenthesised fragment `(defaults to X)` (any position).
     Default fragments at the end of a sentence / after a comma and trigger words without a default are STRICT."""
     import re
 
@@ -179,7 +179,7 @@ def param_taints(p, fmt=None, forced_default=False):
             t.update(("P47", "P47:spill"))
             if pm.start() == 0:
                 t.add("P47:order")
-        if gen_ir.third_word_slash(doc):
+        if gen_ir.second_word_slash(doc):
             t.add("P47")  # U6: `word word int/float ...` - the ad-hoc slash syntax re-types the parameter (Union[int,float])
     d = p.get("default")
     if is_open("P12") and isinstance(d, str) and d != NoneStr and not d.startswith("(") and not gen_ir.is_plain_str(d):
